@@ -22,7 +22,7 @@ TReset ==
 \* the handle ids are chosen by the harness: the lowest-free-slot rule is not imposed
 TBind ==
     /\ Is("bind")
-    /\ IF E.proto = "udp" THEN BindUdp(E.s, E.p) ELSE BindTcp(E.s, E.p)
+    /\ IF E.proto = "udp" THEN BindUdp(E.s, E.p, E.kind) ELSE BindTcp(E.s, E.p, E.kind)
     /\ last'.res = E.res
 TConnect == Is("connect") /\ Connect(E.s, E.how) /\ last'.res = E.res
 TAccept  == Is("accept") /\ AcceptIn(E.s, E.l) /\ last'.res = E.res
